@@ -463,7 +463,8 @@ def readStream (wo : WordOracle) (bs : List Bool) : Option Bytes :=
 /-- what the writers assume of one command besides C14's `DistWF`: the command symbol is the one
 `Command::init` computes from the lengths and the "distance code 0" flag, the lengths are in the
 range of the length codes, a command symbol `< 128` carries distance symbol 0, the distance symbol
-is inside the alphabet and its extra bits fit in NDISTBITS -/
+is inside the alphabet and — for a command that copies (`copy_len() ≠ 0`) — its NDISTBITS field
+and extra bits are consistent -/
 def cmdOK (distAlphabet npostfix ndirect : Nat) (c : Cmd) : Bool :=
   let clc := copyLenCode c.copyLenField
   let ds := c.distPrefix % 1024
@@ -471,10 +472,11 @@ def cmdOK (distAlphabet npostfix ndirect : Nat) (c : Cmd) : Bool :=
   decide (c.insertLen ≤ 16777216) && decide (2 ≤ clc) && decide (clc < 16777216 + 2118) &&
   (decide (c.cmdPrefix ≥ 128) || ds == 0) &&
   decide (ds < distAlphabet) && decide (c.distPrefix < 65536) &&
-  (if ds < 16 + ndirect then decide (c.distPrefix / 1024 = 0) && decide (c.distExtra = 0)
-   else decide (c.distPrefix / 1024 = rfcDistNBits npostfix ndirect ds) &&
-        decide (c.distExtra < 2 ^ (c.distPrefix / 1024)) &&
-        decide (rfcDistDecode npostfix ndirect ds c.distExtra < 2 ^ 31))
+  (decide (copyLen c = 0) ||      -- `init_insert` hard-codes `dist_prefix_ = 1 << 10 | 16`; never written
+   (if ds < 16 + ndirect then decide (c.distPrefix / 1024 = 0) && decide (c.distExtra = 0)
+    else decide (c.distPrefix / 1024 = rfcDistNBits npostfix ndirect ds) &&
+         decide (c.distExtra < 2 ^ (c.distPrefix / 1024)) &&
+         decide (rfcDistDecode npostfix ndirect ds c.distExtra < 2 ^ 31)))
 
 /-- the encoder's position bookkeeping agrees with the decoder's: before every command the bytes
 the RFC decoder has produced (`cursor`) equal the bytes the writer has skipped
